@@ -5,10 +5,12 @@ Arith*.lean). Every theorem is about the executable model (Ymq/Model/{Dividers,I
 `= some …` means "no panic site of the checked profile is reached and the value is …".
 -/
 import Ymq.Lemmas.Dividers
+import Ymq.Lemmas.ArithSqrt
+import Ymq.Lemmas.Inverter
 
 namespace Ymq.C08
 open Ymq.Limbs (W val Wf)
-open Ymq.Dividers
+open Ymq.Dividers Ymq.Arith
 
 /-! ### Dividers: constructor -/
 
@@ -92,5 +94,130 @@ example : (∃ d, new 3 = some d) ∧ (∃ d, new 274177 = some d) ∧ (∃ d, n
       exact (W_mod_ne_zero_iff 3 (by decide)).mp this k hk⟩)).imp fun _ h => h.1,
    new_some 274177 (by decide) (by decide) (by decide),
    new_some 1073741823 (by decide) (by decide) (by decide)⟩
+
+/-! ### Inverter -/
+
+/-- `Inverter::new(p)` for odd `3 ≤ p < 2^28`: no panic, eight entries, entry `j` is
+`−2^−(8j+8) mod p`. -/
+theorem inverter_new_spec (p : Nat) (hodd : p % 2 = 1) (hp3 : 3 ≤ p) (hp28 : p < 2 ^ 28) :
+    ∃ tab, Inverter.new p = some tab ∧ tab.length = 8 ∧
+      ∀ j, j < 8 → tab.getD j 0 < p ∧ (tab.getD j 0 * 2 ^ (8 * j + 8) + 1) % p = 0 := by
+  obtain ⟨tab, h1, h2, h3⟩ := Inverter.new_spec p hodd hp3 hp28
+  refine ⟨tab, h1, h2, fun j hj => ?_⟩
+  obtain ⟨h4, h5⟩ := h3 j (by omega)
+  refine ⟨h4, ?_⟩
+  apply Nat.mod_eq_zero_of_dvd
+  rw [← ZMod.natCast_eq_zero_iff]
+  push_cast
+  rw [h5]; ring
+
+/-- `Inverter::invert(x, div)`: for every odd `3 ≤ p < 2^28` (accepted by both constructors) and every
+`0 < x < p` coprime to `p`, the loop terminates (within the `p + x + 1` iterations the model allows),
+no assertion, overflow or shift-amount check fails, `powidx < 8`, and the result is the inverse:
+`r < p ∧ x·r ≡ 1 (mod p)`. Full statement, not partial. -/
+theorem invert_spec (p x : Nat) (d : Div) (tab : List Nat)
+    (hd : Dividers.new p = some d) (ht : Inverter.new p = some tab)
+    (hodd : p % 2 = 1) (hp3 : 3 ≤ p) (hp28 : p < 2 ^ 28)
+    (hx0 : 0 < x) (hxp : x < p) (hcop : Nat.Coprime x p) :
+    ∃ r, Inverter.invert tab d x = some r ∧ r < p ∧ x * r % p = 1 := by
+  obtain ⟨hdp, ok⟩ := new_ok p d hd
+  obtain ⟨tab', h1, h2, h3⟩ := Inverter.new_spec p hodd hp3 hp28
+  rw [ht] at h1
+  injection h1 with h1
+  subst h1
+  exact Inverter.invert_ok tab d p x ok hdp hodd hp3 hp28 h2 h3 hx0 hxp hcop
+
+/-- the case the property names: `p` an odd prime below `2^28`, any `x ∈ [1, p)`. -/
+theorem invert_spec_prime (p x : Nat) (d : Div) (tab : List Nat)
+    (hd : Dividers.new p = some d) (ht : Inverter.new p = some tab)
+    (hp : p.Prime) (hp2 : p ≠ 2) (hp28 : p < 2 ^ 28) (hx0 : 0 < x) (hxp : x < p) :
+    ∃ r, Inverter.invert tab d x = some r ∧ r < p ∧ x * r % p = 1 := by
+  have h2 := hp.two_le
+  have hodd : p % 2 = 1 := by
+    rcases hp.eq_two_or_odd with h | h
+    · exact absurd h hp2
+    · exact h
+  have hcop : Nat.Coprime x p :=
+    ((Nat.Prime.coprime_iff_not_dvd hp).mpr (fun hdvd =>
+      absurd (Nat.le_of_dvd hx0 hdvd) (by omega))).symm
+  exact invert_spec p x d tab hd ht hodd (by omega) hp28 hx0 hxp hcop
+
+example : ((Dividers.new 7).bind fun d => (Inverter.new 7).bind fun tab => Inverter.invert tab d 3) = some 5 ∧
+    ((Dividers.new 268435399).bind fun d => (Inverter.new 268435399).bind fun tab =>
+      Inverter.invert tab d 2) = some 134217700 := by
+  decide +kernel
+
+/-! ### pow_mod, sqrt_mod
+
+`B` is the number of values of the Rust integer type (`2^64` for `u64`, `2^1024` for `Uint`). -/
+
+/-- `pow_mod(n, k, p) = n^k mod p` for every modulus `p > 1` whose square fits the type
+(`(p-1)² < B`: no product overflows, in either profile). For `k = 0` the routine returns 1, also
+when `p = 1` (where `n^0 mod 1 = 0`): that is the only deviation from `n^k % p`. -/
+theorem pow_mod_spec (B n k p : Nat) (hp : 0 < p) (hB : (p - 1) * (p - 1) < B) :
+    powMod B n k p = some (if k = 0 then 1 else n ^ k % p) :=
+  powMod_eq hp hB
+
+/-- corollary: for `p > 1` the value is `n^k % p` for every `k`. -/
+theorem pow_mod_spec_gt_one (B n k p : Nat) (hp : 1 < p) (hB : (p - 1) * (p - 1) < B) :
+    powMod B n k p = some (n ^ k % p) := by
+  rw [pow_mod_spec B n k p (by omega) hB]
+  by_cases hk : k = 0
+  · subst hk; simp [Nat.mod_eq_of_lt hp]
+  · simp [hk]
+
+/-- the behaviour at `p = 1`, `k = 0` -/
+example : powMod (2 ^ 64) 5 0 1 = some 1 ∧ 5 ^ 0 % 1 = 0 := by decide
+
+/-- `sqrt_mod` is sound for every prime modulus, every type width and every `n`:
+a returned value is a reduced square root of `n`. (An overflowing product or a failed assertion
+makes the model return `none`, so no size hypothesis is needed.) -/
+theorem sqrt_mod_sound (B n p r : Nat) (hp : p.Prime) (h : sqrtMod B n p = some (some r)) :
+    r < p ∧ r * r % p = n % p :=
+  sqrtMod_sound B n p r hp h
+
+/-- `sqrt_mod` answers `None` only for quadratic non-residues (Euler's criterion). -/
+theorem sqrt_mod_none (B n p : Nat) (hp : p.Prime) (h : sqrtMod B n p = some none) :
+    ¬ ∃ x, x * x % p = n % p :=
+  sqrtMod_none B n p hp h
+
+example : sqrtMod (2 ^ 64) 2 7 = some (some 4) ∧ sqrtMod (2 ^ 64) 3 7 = some none ∧
+    sqrtMod (2 ^ 64) 5 41 = some (some 13) := by decide +kernel
+
+/-! ### integer roots, perfect powers -/
+
+/-- `nthRoot` — the specification function that stands for `num_integer`'s `nth_root`/`sqrt`
+(hence for `arith::isqrt`) — is the floor of the k-th root. -/
+theorem nth_root_spec (n k : Nat) (hk : 0 < k) :
+    (nthRoot n k) ^ k ≤ n ∧ n < (nthRoot n k + 1) ^ k :=
+  nthRoot_spec n k hk
+
+/-- `arith::isqrt` (as modelled by the floor-root specification function). -/
+theorem isqrt_spec (n : Nat) : isqrt n * isqrt n ≤ n ∧ n < (isqrt n + 1) * (isqrt n + 1) :=
+  isqrt_spec' n
+
+/-- `squfof::isqrt`: for *every* seed and every number of allowed iterations, a returned value
+is the floor of the square root (termination from the floating-point seed is validated by the
+correspondence runs only). -/
+theorem squfof_isqrt_spec (fuel n seed r : Nat) (h : squfofIsqrt fuel n seed = some r) :
+    r * r ≤ n ∧ n < (r + 1) * (r + 1) :=
+  squfofIsqrt_some fuel n seed r h
+
+example : squfofIsqrt 10 18446744073709551615 4294967296 = some 4294967295 := by decide +kernel
+
+/-- `perfect_power` over the floor-root specification function: `Some((r, k))` means
+`r^k = n` with `k ≥ 2`; `None` means that `n` is not an e-th power for any of the exponents
+2, 3, 5, 7, 11, 13, 17, 19 the code tries. -/
+theorem perfect_power_spec (n : Nat) (res : Option (Nat × Nat)) (h : perfectPower n = some res) :
+    match res with
+    | some (r, k) => r ^ k = n ∧ 2 ≤ k
+    | none => ∀ e ∈ ppExps, ¬ ∃ r, r ^ e = n := by
+  have := ppFuel_spec _ _ _ h
+  cases res with
+  | some rk => exact this
+  | none => exact this
+
+example : perfectPower 6669042837601 = some (some (1607, 4)) ∧ perfectPower 2 = some none ∧
+    perfectPower 1 = some (some (1, 2)) := by decide +kernel
 
 end Ymq.C08
